@@ -741,3 +741,80 @@ func onlyClosureWriters(al *ssa.Alloc) bool {
 	}
 	return true
 }
+
+// ResolvesToParam reports whether v (possibly inside a closure of fn, reading a
+// captured variable) is parameter idx of the enclosing function fn.
+func ResolvesToParam(v ssa.Value, fn *ssa.Function, idx int) bool {
+	if IsParam(v, fn, idx) {
+		return true
+	}
+	v = Strip(v)
+	u, ok := v.(*ssa.UnOp)
+	if !ok || u.Op != token.MUL {
+		return false
+	}
+	fv, ok := u.X.(*ssa.FreeVar)
+	if !ok {
+		return false
+	}
+	cl := fv.Parent()
+	par := cl.Parent()
+	if par == nil {
+		return false
+	}
+	fvIdx := -1
+	for i, f := range cl.FreeVars {
+		if f == fv {
+			fvIdx = i
+		}
+	}
+	for _, b := range par.Blocks {
+		for _, in := range b.Instrs {
+			mc, ok := in.(*ssa.MakeClosure)
+			if !ok || mc.Fn != ssa.Value(cl) || fvIdx < 0 {
+				continue
+			}
+			bind := mc.Bindings[fvIdx]
+			if al, ok := bind.(*ssa.Alloc); ok {
+				if sv := singleStoreIgnoringReaders(al); sv != nil {
+					if par == fn {
+						return IsParam(sv, fn, idx)
+					}
+				}
+			}
+			if par != fn {
+				// nested closure: the binding is itself a free variable of the parent
+				if pfv, ok := bind.(*ssa.FreeVar); ok {
+					_ = pfv
+				}
+			}
+		}
+	}
+	return false
+}
+
+// singleStoreIgnoringReaders: the unique value stored into a cell that closures only read.
+func singleStoreIgnoringReaders(al *ssa.Alloc) ssa.Value {
+	if al.Referrers() == nil {
+		return nil
+	}
+	var val ssa.Value
+	n := 0
+	for _, r := range *al.Referrers() {
+		switch s := r.(type) {
+		case *ssa.Store:
+			if s.Addr == ssa.Value(al) {
+				val = s.Val
+				n++
+			}
+		case *ssa.MakeClosure:
+			if closureWrites(s, al) {
+				return nil
+			}
+		}
+	}
+	if n == 1 {
+		return val
+	}
+	return nil
+}
